@@ -573,3 +573,30 @@ func TestC17PooledClock(t *testing.T) {
 		}
 	})
 }
+
+// TestC17SlowVacuum: with a cleanup interval of 1.5 s, rows with a time-to-live of 2.9 s are looked
+// at once before their deadline (1.4 s early): they must survive that pass. Sampled every 100 ms;
+// a row must be there while its deadline is more than a second away.
+func TestC17SlowVacuum(t *testing.T) {
+	c := column.NewCollection(column.Options{Vacuum: 1500 * time.Millisecond})
+	defer c.Close()
+	c.CreateColumn("id", column.ForUint64())
+	deadlines := map[uint64]time.Time{}
+	for i := 0; i < 8; i++ {
+		before := time.Now()
+		ttl := 2900*time.Millisecond + time.Duration(i)*20*time.Millisecond
+		c.Insert(func(r column.Row) error { r.SetUint64("id", uint64(i)); r.SetTTL(ttl); return nil })
+		deadlines[uint64(i)] = before.Add(ttl)
+	}
+	for step := 0; step < 21; step++ {
+		time.Sleep(100 * time.Millisecond)
+		present := c17Present(c)
+		now := time.Now()
+		for id, d := range deadlines {
+			if d.After(now.Add(time.Second)) && !present[id] {
+				t.Fatalf("C17 violated: row id=%d (deadline %s) is gone at %s, %s before its deadline (cleanup interval 1.5s)", id, d.Format("15:04:05.000"), now.Format("15:04:05.000"), d.Sub(now).Round(time.Millisecond))
+			}
+		}
+	}
+	RecordCase("C17", "slow cleanup: interval 1.5s, rows with a TTL of 2.9s survive the pass before their deadline", true, "cleanup-interval-longer-than-a-second")
+}
